@@ -511,11 +511,12 @@ class MLIRLexer(Lexer[MLIRTokenKind]):
 
         bytes_contents = lit.bytes_contents
 
-        if bytes_contents.isascii():
-            # If the bytes contents are ASCII, return a STRING_LIT
+        try:
+            # If the bytes contents are valid UTF-8, return a STRING_LIT
+            bytes_contents.decode()
             return Token(MLIRTokenKind.STRING_LIT, lit)
-
-        return Token(MLIRTokenKind.BYTES_LIT, lit)
+        except UnicodeDecodeError:
+            return Token(MLIRTokenKind.BYTES_LIT, lit)
 
     _hexdigits_star_regex = re.compile(r"[0-9a-fA-F]*")
     _digits_star_regex = re.compile(r"[0-9]*")
